@@ -182,8 +182,8 @@ def _atom(e):
         ne = isinstance(op, (ast.IsNot, ast.NotEq)) != neg
         if isinstance(a, ast.Name) and tb == "None" and isinstance(op, (ast.Is, ast.IsNot)):
             return "flag:" + a.id if ne else "!flag:" + a.id
-        if ta.startswith("len(") and tb == "1" and isinstance(op, ast.Eq):
-            return "len==1" if not neg else "len!=1"
+        if ta.startswith("len(") and tb == "1" and isinstance(op, (ast.Eq, ast.NotEq)):
+            return "len==1" if (isinstance(op, ast.Eq) != neg) else "len!=1"
         if ta.endswith("._p_oid") and tb == "None":
             return "oid==NULL" if eq else "oid!=NULL"
         if ta.startswith("type(") and (tb == "self._bucket_type" or tb.startswith("type(")):
@@ -191,6 +191,66 @@ def _atom(e):
                 return "child-is-leaf" if eq else "child-is-tree"
             return "child-is-tree" if eq else "child-is-leaf"
     return "other:" + pyfront.unparse(e)[:60]
+
+
+def _expand_cond(test, fn, members, depth=0):
+    """conjuncts of a condition, with locals that name a condition, predicate
+    methods (`return <condition>`) and guard-clause selectors (`if T: return
+    None` ... `return x`, tested with `is not None`) expanded"""
+    if depth > 4:
+        return [test]
+    if isinstance(test, ast.BoolOp) and isinstance(test.op, ast.And):
+        out = []
+        for v in test.values:
+            out.extend(_expand_cond(v, fn, members, depth + 1))
+        return out
+    if isinstance(test, ast.Name):
+        defs = [a.value for a in ast.walk(fn) if isinstance(a, ast.Assign) and len(a.targets) == 1
+                and isinstance(a.targets[0], ast.Name) and a.targets[0].id == test.id]
+        if len(defs) == 1 and not isinstance(defs[0], ast.Call):
+            return _expand_cond(defs[0], fn, members, depth + 1)
+        return [test]
+
+    def helper_of(call):
+        if isinstance(call, ast.Call) and isinstance(call.func, ast.Attribute) and \
+                isinstance(call.func.value, ast.Name) and call.func.value.id == "self":
+            m = members.get(call.func.attr)
+            if isinstance(m, ast.FunctionDef):
+                return m
+        return None
+    h = helper_of(test)
+    if h is not None:
+        body = [st for st in h.body if not (isinstance(st, ast.Expr) and isinstance(st.value, ast.Constant))]
+        if len(body) == 1 and isinstance(body[0], ast.Return) and body[0].value is not None:
+            return _expand_cond(body[0].value, h, members, depth + 1)
+    if isinstance(test, ast.Compare) and len(test.ops) == 1 and isinstance(test.ops[0], ast.IsNot) and \
+            isinstance(test.comparators[0], ast.Constant) and test.comparators[0].value is None:
+        x = test.left
+        if isinstance(x, ast.Name):
+            defs = [a.value for a in ast.walk(fn) if isinstance(a, ast.Assign) and len(a.targets) == 1
+                    and isinstance(a.targets[0], ast.Name) and a.targets[0].id == x.id]
+            if len(defs) == 1:
+                x = defs[0]
+        h = helper_of(x)
+        if h is not None:
+            body = [st for st in h.body if not (isinstance(st, ast.Expr) and isinstance(st.value, ast.Constant))]
+            conds = []
+            ok = True
+            for st in body[:-1]:
+                if isinstance(st, ast.If) and not st.orelse and len(st.body) == 1 and isinstance(st.body[0], ast.Return) \
+                        and (st.body[0].value is None or (isinstance(st.body[0].value, ast.Constant)
+                                                           and st.body[0].value.value is None)):
+                    conds.append(ast.UnaryOp(op=ast.Not(), operand=st.test))
+                elif isinstance(st, ast.Assign):
+                    continue
+                else:
+                    ok = False
+            if ok and body and isinstance(body[-1], ast.Return) and body[-1].value is not None and conds:
+                out = []
+                for c in conds:
+                    out.extend(_expand_cond(c, h, members, depth + 1))
+                return out
+    return [test]
 
 
 def check(res):
@@ -252,7 +312,7 @@ def check(res):
         if isinstance(n, ast.If) and any(
                 isinstance(x, ast.Attribute) and x.attr == "__getstate__"
                 for b in n.body for x in ast.walk(b)):
-            embed = set(_atom(c) for c in _conj(n.test))
+            embed = set(_atom(c2) for c in _conj(n.test) for c2 in _expand_cond(c, gs, mem))
     if embed is None:
         raise AnalysisError("anchor vanished: embedded-leaf branch of _Tree.__getstate__")
     res.extra["py_embed_atoms"] = sorted(embed)
@@ -287,12 +347,15 @@ def check(res):
             return t
         for n in ast.walk(fn):
             test = named(n.test) if isinstance(n, ast.If) else None
+            if isinstance(n, ast.If):
+                exp = _expand_cond(test, fn, mem)
+                test = ast.BoolOp(op=ast.And(), values=exp) if len(exp) > 1 else exp[0]
             if isinstance(n, ast.If) and any(
                     isinstance(x, ast.Attribute) and x.attr == "_p_oid"
                     for x in ast.walk(test)):
                 regs = [e for b in n.body for e in _events(b, set(), set()) if e[0] == "R"]
                 if regs:
-                    mark = set(_atom(c) for c in _conj(test))
+                    mark = set(_atom(c2) for c in _conj(test) for c2 in _expand_cond(c, fn, mem))
                     line = n.lineno
         res.count("PY-EMBEDDED-LEAF", 1)
         if mark is None:
